@@ -363,6 +363,10 @@ class Context:
                 deregistered.append(old_plugin_class)
             self._plugin_class_registry[p] = plugin_class
 
+        # Plugins cached for the previous registry may have been built from other classes
+        # (same version, other defaults / dependencies / class): never reuse them.
+        self._fixed_plugin_cache = None
+
         # If we booted a plugin from a datatype, we must boot it from other
         # datatypes it makes too, to preserve a one-to-one mapping between
         # datatypes and registered plugins.
